@@ -49,6 +49,7 @@ class Profile(object):
         self.p_use_y = 0.15        # reference the string variable y in inputs / publishes
         self.p_null_over = 0.1     # publish null over an already published variable
         self.p_odd_strings = 0.3   # string values with newlines, comments, quotes, unicode
+        self.p_badtype = 0.0       # a well-defined value of the wrong type where an integer is needed
         for k, v in kw.items():
             setattr(self, k, v)
 
@@ -401,6 +402,22 @@ def gen_def(rng, prof):
         elif where == "wfinput":
             d["input"].append(["bad", bad])
         feats.add("badexpr_" + where)
+    # a value of the wrong type (it evaluates without error) where the engine needs an integer
+    if rng.random() < prof.p_badtype:
+        wrong = rng.choice([ctx("d"), lit("s"), lit([1]), ctx("xs")])
+        t = rng.choice(tasks)
+        where = rng.choice(["delay", "retry_count", "retry_delay", "concurrency"])
+        if where == "delay":
+            t["delay"] = wrong
+        elif where == "retry_count":
+            t["retry"] = {"when": None, "count": wrong, "delay": None}
+        elif where == "retry_delay":
+            t["retry"] = {"when": None, "count": lit(1), "delay": wrong}
+        else:
+            t["with"] = {"items": lit([1, 2]), "key": None, "concurrency": wrong}
+            if not any(n == "it" for n, _ in t["input"]):
+                t["input"].append(["it", fn("item")])
+        feats.add("badtype_" + where)
     d["tasks"] = tasks
     lang = "jinja" if rng.random() < prof.lang_jinja else "yaql"
     inputs = {}
